@@ -1,2 +1,59 @@
+/-
+  C12 — CTR-wrapper writes keep ciphertext file and plaintext view consistent.
+-/
+import Proofs.CtrRefines
+import Proofs.TwlRefines
+import Proofs.SubRefines
+import Proofs.PyFileRefines
+import Proofs.Run
 namespace Pyctr.C12
+open Pyctr
+variable {σ : Type} {F : FileOps σ} {inv : σ → Prop} {abs : σ → AFile} (E : Bytes → Bytes)
+
+/-- coupling, 3DS flavour: the abstraction `absCtr` *is* "underlying file = encryption of the logical plaintext"
+    (CTR is an involution), and every read/write/seek/tell — in any interleaving, read-then-write and
+    write-then-read at the current position included — commutes with it and returns what the ordinary plaintext
+    file returns.  Writes are covered whenever they do not start past the end of a growable base (see
+    `C12_gap_witness` for why that hypothesis cannot be dropped on the present code). -/
+theorem C12_coupling_partial (hF : IsFileW F inv abs) :
+    IsFileW (CtrIO.ops F E) (CtrIO.invCtr inv abs) (CtrIO.absCtr E abs) := CtrIO.ctr_isFileW E hF
+
+theorem C12_coupling_twl_partial (hF : IsFileW F inv abs) :
+    IsFileW (TwlIO.ops F E) (TwlIO.invTwl inv) (TwlIO.absTwl E abs) := TwlIO.twl_isFileW E hF
+
+/-- full strength over a window (a write truncated by the window leaves the coupling intact; no hypothesis) -/
+theorem C12_windowed (hF : IsFileW F inv abs) (hfix : ∀ r, inv r → (abs r).fixed = true) :
+    IsFile (CtrIO.ops F E) (CtrIO.invCtr inv abs) (CtrIO.absCtr E abs) := CtrIO.ctr_isFile_of_fixed E hF hfix
+
+theorem C12_windowed_twl (hF : IsFileW F inv abs) (hfix : ∀ r, inv r → (abs r).fixed = true) :
+    IsFile (TwlIO.ops F E) (TwlIO.invTwl inv) (TwlIO.absTwl E abs) := TwlIO.twl_isFile_of_fixed E hF hfix
+
+theorem C12_windowed_pyfile :
+    IsFile (CtrIO.ops (Sub.ops PyFile.ops) E)
+      (CtrIO.invCtr (Sub.invSub (fun _ => True) PyFile.abs) (Sub.absSub PyFile.abs))
+      (CtrIO.absCtr E (Sub.absSub PyFile.abs)) :=
+  C12_windowed E (Sub.sub_isFile pyfile_isFile.toIsFileW).toIsFileW (fun _ _ => rfl)
+
+/-- every history whose writes never start past the end of a growable file: same outputs as the plaintext file,
+    hence no error the ordinary file would not raise -/
+theorem C12_history_partial (hF : IsFileW F inv abs) (ops : List Op) (s : CtrIO σ) (h : CtrIO.invCtr inv abs s)
+    (hg : AFile.noGapRun (CtrIO.absCtr E abs s) ops) :
+    ((CtrIO.ops F E).run s ops).1 = (AFile.ops.run (CtrIO.absCtr E abs s) ops).1 ∧
+    CtrIO.absCtr E abs ((CtrIO.ops F E).run s ops).2 = (AFile.ops.run (CtrIO.absCtr E abs s) ops).2 := by
+  obtain ⟨a, b, _⟩ := isFileW_run (C12_coupling_partial E hF) ops s h hg; exact ⟨a, b⟩
+
+/-- bytes never written keep their ciphertext: CTR transform commutes with overlay -/
+theorem C12_unwritten_kept (ks : Nat → UInt8) (p : Nat) (c w : Bytes) (hp : p ≤ c.length) :
+    xorWith ks 0 (overlay c p (xorWith ks p w)) = overlay (xorWith ks 0 c) p w := xorWith_overlay ks p c w hp
+
+/-- the full statement fails on the present code (known finding `ctrio.write-past-eof-gap`): after seeking past
+    the end of a growable file, a write leaves the zero-filled gap unencrypted, so the file is no longer the
+    encryption of the logical plaintext. -/
+theorem C12_gap_witness :
+    let E : Bytes → Bytes := fun _ => List.replicate 16 1
+    let s0 : CtrIO PyFile := ⟨⟨[0x10, 0x11], 0⟩, 0, none, false⟩
+    let s1 := ((CtrIO.ops PyFile.ops E).run s0 [.seek 4 0, .write [0xAA]]).2
+    (CtrIO.absCtr E PyFile.abs s1).content ≠
+      (AFile.ops.run (CtrIO.absCtr E PyFile.abs s0) [.seek 4 0, .write [0xAA]]).2.content := by decide
+
 end Pyctr.C12
